@@ -36,6 +36,7 @@ type refEnv struct {
 	perm   bool // an object with >= 2 members was iterated: order is open
 
 	dropNull bool // model the known defect: a subscript skips JSON null elements
+	unknownSwallows bool // model the known defect: is unknown swallows the unknown-variable error
 }
 
 type rctx struct {
@@ -309,7 +310,12 @@ func (e *refEnv) subscripts(n *ast.ArrayIndexNode, in any, c rctx) ([]any, rctx,
 	arr, ok := in.([]any)
 	if !ok {
 		if e.strict {
-			// (the port raises this error even below .**; see DESIGN)
+			if c.ignore {
+				// a subscript on a non-array below .** in strict mode: the port
+				// raises where PostgreSQL skips, and no property says which
+				e.open = true
+				return nil, c, eNone
+			}
 			return nil, c, eSupp
 		}
 		arr = []any{in}
@@ -530,6 +536,9 @@ func (e *refEnv) pred(n ast.Node, in any, c rctx) (int, bool) {
 		case ast.UnaryIsUnknown:
 			o, hard := e.pred(n.Operand(), in, c)
 			if hard {
+				if e.unknownSwallows {
+					return oT, false
+				}
 				return oU, true
 			}
 			return b2o(o == oU), false
@@ -657,13 +666,69 @@ func (e *refEnv) method(n *ast.MethodNode, in any, c rctx) ([]any, rctx, int) {
 			return []any{math.Floor(f)}, c, eNone
 		}
 		return []any{math.Ceil(f)}, c, eNone
-	case ast.MethodDouble:
+	case ast.MethodDouble, ast.MethodNumber:
 		isNum, _, _, f := numView(in)
 		if isNum {
 			return []any{f}, c, eNone
 		}
 		if _, ok := in.(string); ok {
 			e.open = true // string -> number parsing is not modelled
+			return nil, c, eNone
+		}
+		if jn, ok := in.(json.Number); ok {
+			_ = jn
+			e.open = true // a number outside float64 range: error class differs per method
+			return nil, c, eNone
+		}
+		return nil, c, eSupp
+	case ast.MethodInteger, ast.MethodBigInt:
+		isNum, isInt, i, f := numView(in)
+		if !isNum {
+			switch in.(type) {
+			case string, json.Number:
+				e.open = true
+				return nil, c, eNone
+			}
+			return nil, c, eSupp
+		}
+		if n.Name() == ast.MethodInteger {
+			if isInt {
+				if i > math.MaxInt32 || i < math.MinInt32 {
+					return nil, c, eSupp
+				}
+				return []any{i}, c, eNone
+			}
+			rf := math.Round(f)
+			if !(rf <= math.MaxInt32 && rf >= math.MinInt32) {
+				return nil, c, eSupp
+			}
+			return []any{int64(rf)}, c, eNone
+		}
+		if isInt {
+			return []any{i}, c, eNone
+		}
+		rf := math.Round(f)
+		if !(rf >= -9223372036854775808.0 && rf < 9223372036854775808.0) {
+			return nil, c, eSupp
+		}
+		return []any{int64(rf)}, c, eNone
+	case ast.MethodBoolean:
+		if b, ok := in.(bool); ok {
+			return []any{b}, c, eNone
+		}
+		isNum, isInt, i, f := numView(in)
+		if isNum {
+			if isInt {
+				return []any{i != 0}, c, eNone
+			}
+			if f != math.Trunc(f) {
+				return nil, c, eSupp
+			}
+			return []any{f != 0}, c, eNone
+		}
+		switch in.(type) {
+		case string, json.Number:
+			e.open = true
 			return nil, c, eNone
 		}
 		return nil, c, eSupp
@@ -678,7 +743,11 @@ func refQuery(p *ast.AST, doc any, vars exec.Vars) (items []any, err int, open, 
 }
 
 func refQueryOpt(p *ast.AST, doc any, vars exec.Vars, dropNull bool) (items []any, err int, open, perm bool) {
-	e := &refEnv{root: doc, vars: vars, strict: p.IsStrict(), dropNull: dropNull}
+	return refQueryOpt2(p, doc, vars, dropNull, false)
+}
+
+func refQueryOpt2(p *ast.AST, doc any, vars exec.Vars, dropNull, unknownSwallows bool) (items []any, err int, open, perm bool) {
+	e := &refEnv{root: doc, vars: vars, strict: p.IsStrict(), dropNull: dropNull, unknownSwallows: unknownSwallows}
 	items, err = e.chain(p.Root(), doc, rctx{cur: doc, ignore: !e.strict})
 	return items, err, e.open, e.perm
 }
